@@ -379,3 +379,57 @@ Proof.
     destruct Hle as [Hle|Hle]; try lia;
     try (rewrite W in Hle by lia; lia); try (rewrite W by lia; lia).
 Qed.
+
+(* ---------- an accepted script is bound to the local nonce ---------------- *)
+Lemma client_proof_binds_nonce cr K cid rb rb' r0 :
+  client_proof cr K cid rb r0 -> client_proof cr K cid rb' r0 -> rb = rb'.
+Proof.
+  intros (r1 & r2 & n & r3 & r4 & m & r5 & r6 & E0 & E1 & E2 & _ & E3 & _)
+         (r1' & r2' & n' & r3' & r4' & m' & r5' & r6' & E0' & E1' & E2' & _ & E3' & _).
+  rewrite E0 in E0'. inversion E0'; subst r1'.
+  rewrite E1 in E1'. inversion E1'; subst r2'.
+  rewrite E2 in E2'. inversion E2'; subst n' r3'.
+  rewrite E3 in E3'. inversion E3'. reflexivity.
+Qed.
+
+(* the frames a server accepted under nonce rb are refused under any other nonce:
+   a recorded exchange cannot be replayed against a server whose nonce is new *)
+Lemma server_accept_binds_nonce e now rb rb' frames user sk sent user' sk' sent' :
+  server_run e now rb frames = {| s_out := Accept user sk; s_sent := sent |} ->
+  server_run e now rb' frames = {| s_out := Accept user' sk'; s_sent := sent' |} ->
+  rb = rb'.
+Proof.
+  intros H H'. apply server_accepts_iff in H, H'.
+  destruct H as (claimed & tok & ra & r1 & key & sub & E1 & Htv & Hcp & _).
+  destruct H' as (claimed' & tok' & ra' & r1' & key' & sub' & E1' & Htv' & Hcp' & _).
+  rewrite E1 in E1'. inversion E1'; subst claimed' tok' ra' r1'.
+  destruct (token_valid_fun _ _ _ _ _ _ _ Htv Htv') as [-> ->].
+  exact (client_proof_binds_nonce _ _ _ _ _ _ Hcp Hcp').
+Qed.
+
+Lemma client_accept_binds_nonce cr ld ra ra' frames sk sent sk' sent' :
+  client_run cr ld ra frames = {| c_out := CAccept sk; c_sent := sent |} ->
+  client_run cr ld ra' frames = {| c_out := CAccept sk'; c_sent := sent' |} ->
+  ra = ra'.
+Proof.
+  intros H H'. apply client_accepts_iff in H, H'.
+  destruct H as (cid & tok & sig & sid & rb & Hld & Hsp & _).
+  destruct H' as (cid' & tok' & sig' & sid' & rb' & Hld' & Hsp' & _).
+  rewrite Hld in Hld'. inversion Hld'; subst cid' tok' sig'.
+  destruct Hsp as (r1 & r2 & r3 & n & r4 & r5 & m & r6 & r7 & k & r8 & r9 & E0 & E1 & E2 & E3 & _ & E4 & _).
+  destruct Hsp' as (r1' & r2' & r3' & n' & r4' & r5' & m' & r6' & r7' & k' & r8' & r9' & E0' & E1' & E2' & E3' & _ & E4' & _).
+  rewrite E0 in E0'. inversion E0'; subst r1'.
+  rewrite E1 in E1'. inversion E1'; subst r2'.
+  rewrite E2 in E2'. inversion E2'; subst sid' r3'.
+  rewrite E3 in E3'. inversion E3'; subst n' r4'.
+  rewrite E4 in E4'. inversion E4'. reflexivity.
+Qed.
+
+(* the two proofs are never interchangeable: the MAC input of the server's proof
+   differs from the MAC input of the client's proof for the same identity *)
+Lemma proofs_not_interchangeable cid sid ra rb rb' : mac_T cid sid ra rb <> mac_C cid rb'.
+Proof.
+  unfold mac_T, mac_C. induction cid as [|x cid IH]; simpl.
+  - discriminate.
+  - intro H. inversion H. auto.
+Qed.
